@@ -13,6 +13,7 @@ import GojaModel.C13.ExportLemmas
 import GojaModel.C13.MapModel
 import GojaModel.C13.GatewayLemmas
 import GojaModel.C13.Cache2Lemmas
+import GojaModel.C13.GoSlice
 
 namespace GojaModel.C13
 
@@ -455,6 +456,53 @@ theorem export_cache_monotone (js : Nat → JFields) (fuel : Nat) (c : ECtx) (v 
     have : c.cache[a]? = none := List.getElem?_eq_none (by omega)
     rw [this] at h; cases h
   rw [hsuf, List.getElem?_append_left hlt]; exact h
+
+/-! ### the plain []interface{} wrapper: a script-side grow exposes only nil, whatever Go left in the spare capacity -/
+
+/-- For EVERY state of the backing array (arbitrary stale items beyond len: Go-side truncation, a slice built as
+    buf[:n], earlier script shrinks) growing through script (`a.length = n`) keeps the old elements and makes every
+    new slot nil — within capacity and with re-allocation alike. -/
+theorem goslice_grow_exposes_only_nil (s : GS) (size : Nat) (h : s.len < size) :
+    (s.grow size).len = size ∧ (∀ i, i < s.len → (s.grow size).mem i = s.mem i) ∧
+    (∀ i, s.len ≤ i → i < size → (s.grow size).mem i = none) := by
+  unfold GS.grow
+  split
+  · refine ⟨rfl, ?_, ?_⟩
+    · intro i hi; simp [hi]
+    · intro i hi _; have : ¬ i < s.len := by omega
+      simp [this]
+  · refine ⟨rfl, ?_, ?_⟩
+    · intro i hi; have : ¬ (s.len ≤ i ∧ i < size) := by omega
+      simp [this]
+    · intro i h1 h2; simp [h1, h2]
+
+/-- the same for an assignment beyond the end (`a[len+k] = v`): the gap is nil, the element is v -/
+theorem goslice_put_beyond_end_gap_is_nil (s : GS) (i : Nat) (x : Option Val) (h : s.len ≤ i) :
+    (s.putIdx i x).len = i + 1 ∧ (s.putIdx i x).mem i = x ∧
+    (∀ j, s.len ≤ j → j < i → (s.putIdx i x).mem j = none) ∧
+    (∀ j, j < s.len → (s.putIdx i x).mem j = s.mem j) := by
+  have hg := goslice_grow_exposes_only_nil s (i + 1) (by omega)
+  simp only [GS.putIdx, h, if_true]
+  refine ⟨hg.1, by simp [updN], ?_, ?_⟩
+  · intro j h1 h2
+    have : j ≠ i := by omega
+    simp only [updN, this, if_false]
+    exact hg.2.2 j h1 (by omega)
+  · intro j hj
+    have : j ≠ i := by omega
+    simp only [updN, this, if_false]
+    exact hg.2.1 j hj
+
+/-- a script-side shrink clears what it cuts off (so the wrapper itself never leaves stale items behind) -/
+theorem goslice_shrink_clears (s : GS) (n i : Nat) (h1 : n ≤ i) (h2 : i < s.len) : (s.shrink n).mem i = none := by
+  simp [GS.shrink, h1, h2]
+
+/-- Regression record of the seeded mutant C13-m4 (grow within capacity without clearing): after a Go-side
+    truncation the stale item reappears; the coded grow shows nil. -/
+theorem goslice_grow_no_clear_prefix_witness :
+    let s : GS := { mem := fun i => if i < 3 then some (Int.ofNat i + 5) else none, cap := 3, len := 3 }
+    (((s.step (.goTrunc 1)).growNoClear 3).mem 2 = some 7) ∧ (((s.step (.goTrunc 1)).grow 3).mem 2 = none) := by
+  decide
 
 /-! ### the two-level identity cache (untyped entry + per-type items) of one ExportTo -/
 
